@@ -126,7 +126,7 @@ PROPS = {
     },
 }
 
-HOOK_COMMITS = ["b42be2f"]
+HOOK_COMMITS = ["b42be2f", "8d020dd"]
 NOT_YET = {}
 DEFAULT_LEVEL_TEXT = ("Unbounded: Lean 4 theorems (kernel-checked, axioms audited) state that the executable model M of the anchored Go functions "
                       "computes the coordinate-wise specification S for every rank, shape, stride vector and argument. Bounded: that M is what /repo does is "
